@@ -17,9 +17,24 @@ import (
 // algebra operation and its operands; map iteration order.
 // Stubbed: net.ResolveTCPAddr / TCPAddr.String (identity on canonical literals), hash/fnv
 // (uninterpreted function H: address -> BV32; a 32-bit hash of unbounded inputs is not
-// injective; natively the pair 10.0.1.16:5319 / 10.0.2.47:8124 collides).
+// injective; the pool holds one pair that collides natively, see c14Addrs).
 
-var c14Addrs = []string{"10.0.0.1:1001", "10.0.0.2:1002", "10.0.0.3:1003", "10.0.0.4:1004"}
+// The first two addresses really collide under FNV-32a (both hash to 1399806668), the others do
+// not; c14HashAxioms makes the uninterpreted hash of the encoding agree with that much of the
+// real function - H(0) == H(1), all other pairs distinct, the values themselves stay symbolic -
+// so that a counterexample about colliding addresses replays against the real build.
+var c14Addrs = []string{"10.0.1.16:5319", "10.0.2.47:8124", "10.0.0.3:1003", "10.0.0.4:1004"}
+
+func c14HashAxioms() {
+	if !vIsEngine() {
+		return
+	}
+	h := func(i int) uint32 { return vUF32("fnv", uint64(i)) }
+	vAssume(h(0) == h(1))
+	vAssume(h(2) != h(0))
+	vAssume(h(3) != h(0))
+	vAssume(h(2) != h(3))
+}
 
 type vHash32 struct {
 	hash.Hash32 // nil: only Write and Sum32 are used
@@ -145,6 +160,7 @@ func c14Build(mgr *RawManager, tag string, maxEntries, pool int) (RawConfigurati
 }
 
 func VerifC14(maxEntries, withAlgebra, pool int) {
+	c14HashAxioms()
 	mgr := NewRawManager(WithNoConnect())
 	c1, ok1 := c14Build(mgr, "c1", maxEntries, pool)
 	if !ok1 {
@@ -225,6 +241,7 @@ func VerifC14(maxEntries, withAlgebra, pool int) {
 
 // VerifC14NewNodes: WithNewNodes yields the union of the old configuration and the new nodes.
 func VerifC14NewNodes(maxEntries, pool int) {
+	c14HashAxioms()
 	mgr := NewRawManager(WithNoConnect())
 	c1, ok := c14Build(mgr, "c1", maxEntries, pool)
 	if !ok {
